@@ -582,14 +582,30 @@ def cli_scenarios(rnd, n):
                     g.append('%s:%d' % (t, num))
             specs.append(g)
         out.append({'n_alt': n_alt, 'flags': flags, 'counts': counts, 'maxwarn': specs, 'pre_existing': rnd.random() < 0.6,
-                    'write_graph': rnd.random() < 0.2})
+                    'write_graph': rnd.random() < 0.2, 'error_ff': rnd.random() < 0.2})
     return out
+
+
+ERROR_FF = '''[ modification ]
+split-mod
+[ atoms ]
+BB {"replace": {"atype": "Q5"}}
+SC1 {"replace": {"atype": "P2"}}
+'''
 
 
 def check_cli(sc, b):
     from . import c08
     work = tempfile.mkdtemp(prefix='c07cli-')
+    ffs = None
     try:
+        if sc.get('error_ff'):
+            # a user force-field directory with a modification that is not one connected component: reading it logs a record at
+            # ERROR level and the run carries on - a record above warning level that no allowance can waive
+            ffs = tempfile.mkdtemp(prefix='c07ff-')
+            os.makedirs(os.path.join(ffs, 'martini3001'))
+            with open(os.path.join(ffs, 'martini3001', 'extra.ff'), 'w') as f:
+                f.write(ERROR_FF)
         src = util.test_data_path('integration_tests/tier-0/mini-protein3_trp-cage/aa.pdb')
         altloc_pdb(src, os.path.join(work, 'in.pdb'), sc['n_alt'])
         if sc['pre_existing']:
@@ -602,11 +618,18 @@ def check_cli(sc, b):
             cmd += ['-maxwarn'] + g
         if sc['write_graph']:
             cmd += ['-write-graph', 'graph.pdb']
+        if ffs:
+            cmd += ['-ff-dir', ffs]
         env = dict(os.environ, PYTHONPATH=util.REPO)
         r = subprocess.run(cmd, cwd=work, env=env, capture_output=True, text=True, timeout=900)
         b.hits += 1
         parsed = [[c08.my_parse(t) for t in g] for g in sc['maxwarn']]
-        lo, hi = c08.reference({(30, t): n for t, n in sc['counts'].items()}, parsed)
+        counts = {(30, t): n for t, n in sc['counts'].items()}
+        if ffs:
+            counts[(40, 'general')] = 1
+            if 'not a single connected component' not in r.stderr:
+                return 'engineering', {'error_record_planned': True, 'stderr': r.stderr[-600:]}
+        lo, hi = c08.reference(counts, parsed)
         after = snapshot(work)
         produced = {k for k in after if k not in before or after[k] != before[k]}
         allowed_debug = {'graph.pdb'} if sc['write_graph'] else set()
@@ -635,6 +658,8 @@ def check_cli(sc, b):
         return None, info
     finally:
         shutil.rmtree(work, ignore_errors=True)
+        if ffs:
+            shutil.rmtree(ffs, ignore_errors=True)
 
 
 def cases(tier, seed):
@@ -644,7 +669,7 @@ def cases(tier, seed):
     nb2, per2 = (8, 4) if tier == 'quick' else (48, 16)
     out += [{'kind': 'crash', 'seed': seed, 'batch': b, 'n': per2} for b in range(nb2)]
     out += [{'kind': 'writers'}]
-    ncli = 14 if tier == 'quick' else 90
+    ncli = 16 if tier == 'quick' else 96
     out += [{'kind': 'cli', 'seed': seed, 'index': i} for i in range(ncli)]
     return out
 
@@ -721,6 +746,9 @@ def run_case(params):
             {'n_alt': 1, 'flags': ['-ed'], 'counts': {'pdb-alternate': 1, 'missing-feature': 1}, 'maxwarn': [['pdb-alternate', 'missing-feature:1']],
              'pre_existing': True, 'write_graph': False},
             {'n_alt': 0, 'flags': [], 'counts': {}, 'maxwarn': [], 'pre_existing': True, 'write_graph': False},
+            {'n_alt': 0, 'flags': [], 'counts': {}, 'maxwarn': [], 'pre_existing': True, 'write_graph': False, 'error_ff': True},
+            {'n_alt': 1, 'flags': [], 'counts': {'pdb-alternate': 1}, 'maxwarn': [['5'], ['general']], 'pre_existing': True, 'write_graph': False,
+             'error_ff': True},
         ]
         sc = fixed[params['index']] if params['index'] < len(fixed) else cli_scenarios(rnd, 1)[0]
         b.total += 1
@@ -734,6 +762,7 @@ def run_case(params):
             b.violation(p[0], 'CLI gate (%s)' % p[0], {'scenario': sc, 'detail': p[1]})
         else:
             b.feat({'cli_runs': 1, 'cli_refused': int(info['returncode'] != 0), 'cli_accepted': int(info['returncode'] == 0),
-                    'cli_with_preexisting_outputs': int(sc['pre_existing'])})
+                    'cli_with_preexisting_outputs': int(sc['pre_existing']),
+                    'cli_with_unwaivable_error_record': int(bool(sc.get('error_ff')))})
             b.nontrivial(sc, {'cli': sc, 'observed': info})
     return b.result()
